@@ -178,6 +178,37 @@ func loopVarProgs(rng *fw.Rng, n, depth, budget int) []c01Prog {
 	return out
 }
 
+// taskLoopProgs: loops closed by conditional flows on a task (the task is requested once per iteration and
+// takes a different one of its outgoing flows in the last iteration), with the leaving flow listed first or
+// last, 2..4 iterations, nested in each other and around / inside the other blocks.
+func taskLoopProgs(rng *fw.Rng, n, depth, budget int) []c01Prog {
+	var out []c01Prog
+	tl := func(body *gen.Block, v string, bound int, exitFirst bool) *gen.Block {
+		return &gen.Block{Kind: "loop", Default: -1, Var: v, Bound: bound, Kids: []*gen.Block{body}, TaskExit: true, ExitFirst: exitFirst}
+	}
+	add := func(name string, ast *gen.Block) {
+		out = append(out, c01Prog{Name: "taskloop:" + name, AST: ast, NV: 2, Family: "taskloop:" + name})
+	}
+	for _, ef := range []bool{false, true} {
+		tag := fmt.Sprintf("exitfirst=%v", ef)
+		for bound := 2; bound <= 4; bound++ {
+			add(fmt.Sprintf("plain-%d-%s", bound, tag), gen.Seq(gen.T(), tl(gen.T(), "cntT", bound, ef), gen.T()))
+		}
+		add("nested-"+tag, gen.Seq(gen.T(), tl(tl(gen.T(), "cntI", 2, !ef), "cntT", 3, ef), gen.T()))
+		add("and-"+tag, gen.Seq(gen.T(), tl(&gen.Block{Kind: "and", Default: -1, Kids: []*gen.Block{gen.T(), gen.T()}}, "cntT", 3, ef), gen.T()))
+		add("sub-"+tag, gen.Seq(gen.T(), tl(&gen.Block{Kind: "sub", Default: -1, Kids: []*gen.Block{gen.T()}}, "cntT", 3, ef), gen.T()))
+		add("insub-"+tag, gen.Seq(gen.T(), &gen.Block{Kind: "sub", Default: -1, Kids: []*gen.Block{tl(gen.T(), "cntT", 3, ef)}}, gen.T()))
+	}
+	for i := 0; i < n; i++ {
+		nv := 2 + rng.Intn(2)
+		gn := &gen.Gen{R: rng, NVars: nv, Budget: budget, NoOr: true, TaskLoops: true}
+		body := gn.Block("loop", depth, false)
+		ast := gen.Seq(gen.T(), body, gen.T())
+		out = append(out, c01Prog{Name: fmt.Sprintf("taskloop:rnd%d", i), AST: ast, NV: nv, Family: "taskloop:rnd"})
+	}
+	return out
+}
+
 func hasOr(g *gen.Graph) bool {
 	for _, n := range g.Nodes {
 		if n.Kind == gen.Or {
@@ -285,6 +316,13 @@ func c01Cases(tier string, seed uint64) []fw.Case {
 		cs = append(cs, c01CasesFor(loopVarProgs(lrng, 400, 4, 20), lrng, 4, 12, 2, nil)...)
 	} else {
 		cs = append(cs, c01CasesFor(loopVarProgs(lrng, 40, 3, 12), lrng, 2, 3, 1, nil)...)
+	}
+	// loops closed by conditional flows on a task
+	trng := fw.NewRng(seed, "C01taskloop")
+	if tier == "thorough" {
+		cs = append(cs, c01CasesFor(taskLoopProgs(trng, 300, 4, 20), trng, 4, 12, 2, nil)...)
+	} else {
+		cs = append(cs, c01CasesFor(taskLoopProgs(trng, 30, 3, 12), trng, 2, 3, 1, nil)...)
 	}
 	// instances sharing one definitions value
 	twinProgs := append(forcedPairs(fw.NewRng(seed, "C01")), forcedData()...)
